@@ -3,6 +3,7 @@
   `for endNode := range branch.endNodes` is characterised by the *set* of end nodes.
 -/
 import EinoV.Proofs.C20Sim
+import EinoV.Proofs.C20Kahn
 
 namespace EinoV.Build
 
@@ -348,17 +349,403 @@ theorem branchEnds_char (im : Impl) (ord : Ord) (hv : ord.Valid) (s : Key) (A : 
           · rw [hpost.sn]
             have e0 : c0.startNodes = b.startNodes := by
               have := hfr0; simp only [Frame, Builder.frame, Prod.mk.injEq] at this; exact this.2.2.2.2.2.2.2.1
-            show (if s = START then c0.startNodes ++ [e] else c0.startNodes).isEmpty && _ = _
+            show ((if s = START then c0.startNodes ++ [e] else c0.startNodes).isEmpty && _) = _
             by_cases hst : s = START
             · simp [hst, isEmpty_append_singleton]
             · simp [hst, e0]
           · rw [hpost.en]
             have e0 : c0.endNodes = b.endNodes := by
               have := hfr0; simp only [Frame, Builder.frame, Prod.mk.injEq] at this; exact this.2.2.2.2.2.2.2.2.1
-            show (if e = END then c0.endNodes ++ [s] else c0.endNodes).isEmpty && _ = _
+            show ((if e = END then c0.endNodes ++ [s] else c0.endNodes).isEmpty && _) = _
             by_cases hen : e = END
             · simp [hen, isEmpty_append_singleton]
             · have : ¬ END = e := fun h => hen h.symm
               simp [hen, e0, this]
+
+
+theorem badEnd_sim {im : Impl} {b b' : Builder} (hs : Sim b b') (A : Ty) (e : Key) :
+    badEnd im b' A e ↔ badEnd im b A e := by
+  unfold badEnd; rw [hs.hasNode, hs.tin]
+
+/-- **the loop over a branch's end nodes may visit them in any order** (and the work list in
+    any order each time): from indistinguishable states it fails on both sides or on neither,
+    and the results are indistinguishable again. -/
+theorem branchEnds_perm_sim (im : Impl) (ord ord' : Ord) (hv : ord.Valid) (hv' : ord'.Valid) (s : Key) (A : Ty)
+    (L L' : List Key) (hperm : L.Perm L') (b b' : Builder) (X X' : List (Key × Key)) (hs : Sim b b')
+    (hi : InvC im b X) (hi' : InvC im b' X') (hA : b.nodeOut s = some A) :
+    (∃ k k', branchEnds im ord s L b = .error k ∧ branchEnds im ord' s L' b' = .error k') ∨
+    (∃ c c', branchEnds im ord s L b = .ok c ∧ branchEnds im ord' s L' b' = .ok c' ∧ Sim c c') := by
+  have hA' : b'.nodeOut s = some A := by rw [hs.tout]; exact hA
+  obtain ⟨hbad, hgood⟩ := branchEnds_char im ord hv s A L b X hi hA
+  obtain ⟨hbad', hgood'⟩ := branchEnds_char im ord' hv' s A L' b' X' hi' hA'
+  have hiff : (∃ e ∈ L', badEnd im b' A e) ↔ (∃ e ∈ L, badEnd im b A e) := by
+    constructor
+    · rintro ⟨e, he, hb⟩; exact ⟨e, hperm.mem_iff.mpr he, (badEnd_sim hs A e).mp hb⟩
+    · rintro ⟨e, he, hb⟩; exact ⟨e, hperm.mem_iff.mp he, (badEnd_sim hs A e).mpr hb⟩
+  by_cases hb : ∃ e ∈ L, badEnd im b A e
+  · obtain ⟨k, hk⟩ := hbad hb
+    obtain ⟨k', hk'⟩ := hbad' (hiff.mpr hb)
+    exact Or.inl ⟨k, k', hk, hk'⟩
+  · obtain ⟨c, hc, hp⟩ := hgood hb
+    obtain ⟨c', hc', hp'⟩ := hgood' (fun h => hb (hiff.mp h))
+    refine Or.inr ⟨c, c', hc, hc', ?_⟩
+    -- same reachable sets in the two all-at-once states
+    have tyX := addEnds_types b s L
+    have tyY := addEnds_types b' s L'
+    have hreach : ∀ k, Reach (addEnds b' s L') k ↔ Reach (addEnds b s L) k := by
+      intro k
+      constructor
+      · apply Reach.of_sets
+        · intro k0 hk0; exact Reach.typed (by rw [tyX.1, ← hs.tin, ← tyY.1]; exact hk0)
+        · intro s1 x1 hx1
+          left
+          rcases (addEnds_slice b' s L' s1 x1).mp hx1 with r | ⟨r1, e, he, r2⟩
+          · exact (addEnds_slice b s L s1 x1).mpr (Or.inl ((hs.pend s1 x1).mp r))
+          · exact (addEnds_slice b s L s1 x1).mpr (Or.inr ⟨r1, e, hperm.mem_iff.mpr he, r2⟩)
+      · apply Reach.of_sets
+        · intro k0 hk0; exact Reach.typed (by rw [tyY.1, hs.tin, ← tyX.1]; exact hk0)
+        · intro s1 x1 hx1
+          left
+          rcases (addEnds_slice b s L s1 x1).mp hx1 with r | ⟨r1, e, he, r2⟩
+          · exact (addEnds_slice b' s L' s1 x1).mpr (Or.inl ((hs.pend s1 x1).mpr r))
+          · exact (addEnds_slice b' s L' s1 x1).mpr (Or.inr ⟨r1, e, hperm.mem_iff.mp he, r2⟩)
+    have hsome : ∀ k, (c'.nodeIn k).isSome = (c.nodeIn k).isSome := by
+      intro k
+      have a := hp.typed k; have a' := hp'.typed k; have r := hreach k
+      rcases h1 : (c'.nodeIn k).isSome <;> rcases h2 : (c.nodeIn k).isSome
+      · rfl
+      · exact absurd (a'.mpr (r.mpr (a.mp h2))) (by rw [h1]; simp)
+      · exact absurd (a.mpr (r.mp (a'.mp h1))) (by rw [h2]; simp)
+      · rfl
+    have hin : ∀ k, c'.nodeIn k = c.nodeIn k := by
+      intro k
+      rcases hb0 : b.nodeIn k with _ | t
+      · have hb0' : b'.nodeIn k = none := by rw [hs.tin]; exact hb0
+        have e1 : c.nodeIn k = none ∨ c.nodeIn k = some A := by
+          rcases hp.step.tin k with r | r
+          · left; rw [r]; exact hb0
+          · right; exact r
+        have e2 : c'.nodeIn k = none ∨ c'.nodeIn k = some A := by
+          rcases hp'.step.tin k with r | r
+          · left; rw [r]; exact hb0'
+          · right; exact r
+        have := hsome k
+        rcases e1 with e1 | e1 <;> rcases e2 with e2 | e2 <;> rw [e1, e2] at this ⊢ <;> simp at this
+      · rw [hp.step.mono.tin k t hb0, hp'.step.mono.tin k t (by rw [hs.tin]; exact hb0)]
+    have hout : ∀ k, c'.nodeOut k = c.nodeOut k := by
+      intro k
+      rcases hb0 : b.nodeOut k with _ | t
+      · have hb0' : b'.nodeOut k = none := by rw [hs.tout]; exact hb0
+        have e1 : c.nodeOut k = none ∨ c.nodeOut k = some A := by
+          rcases hp.step.tout k with r | r
+          · left; rw [r]; exact hb0
+          · right; exact r
+        have e2 : c'.nodeOut k = none ∨ c'.nodeOut k = some A := by
+          rcases hp'.step.tout k with r | r
+          · left; rw [r]; exact hb0'
+          · right; exact r
+        -- typedness of the output follows that of the input (well-formed nodes)
+        have hi1 : c.nodeOut k = none ↔ c.nodeIn k = none := (hp.wf.untyped_iff k).symm
+        have hi2 : c'.nodeOut k = none ↔ c'.nodeIn k = none := (hp'.wf.untyped_iff k).symm
+        have hkk := hin k
+        rcases e1 with e1 | e1 <;> rcases e2 with e2 | e2
+        · rw [e1, e2]
+        · exfalso
+          have := hi1.mp e1; rw [← hkk] at this
+          have := hi2.mpr this; rw [e2] at this; simp at this
+        · exfalso
+          have := hi2.mp e2; rw [hkk] at this
+          have := hi1.mpr this; rw [e1] at this; simp at this
+        · rw [e1, e2]
+      · rw [hp.step.mono.tout k t hb0, hp'.step.mono.tout k t (by rw [hs.tout]; exact hb0)]
+    have hfr := hs.fr
+    simp only [Builder.simFrame, Prod.mk.injEq] at hfr
+    obtain ⟨h1, h2, h3, h4, h5, h6, h7, h8, h9, h10, h11, h12, h13⟩ := hfr
+    have f := hp.fr; have f' := hp'.fr
+    simp only [Prod.mk.injEq, keysOf] at f f'
+    obtain ⟨g1, g2, g3, g4, g5, g6, g7, g8, g9, g10, g11, g12⟩ := f
+    obtain ⟨g1', g2', g3', g4', g5', g6', g7', g8', g9', g10', g11', g12'⟩ := f'
+    refine ⟨?_, ?_, hin, hout, ?_⟩
+    · simp only [Builder.simFrame, Prod.mk.injEq]
+      refine ⟨by rw [g1', g1, h1], by rw [g2', g2, h2], by rw [g3', g3, h3], by rw [g4', g4, h4], by rw [g5', g5, h5],
+        by rw [g6', g6, h6], by rw [g7', g7, h7], by rw [g8', g8, h8], by rw [g9', g9, h9], by rw [g10', g10, h10],
+        by rw [g11', g11, h11], ?_, ?_⟩
+      · rw [hp'.sn, hp.sn, h12]
+        have : L'.isEmpty = L.isEmpty := by
+          have := hperm.length_eq
+          cases L <;> cases L' <;> simp_all
+        rw [this]
+      · rw [hp'.en, hp.en, h13]
+        have : L'.contains END = L.contains END := by
+          have := hperm.mem_iff (a := END)
+          cases h1 : L'.contains END <;> cases h2 : L.contains END <;> simp_all
+        rw [this]
+    · rw [g12, g12']; exact hs.err
+    · intro s1 x1
+      rw [hp'.pend s1 x1, hp.pend s1 x1, hs.pend s1 x1, hout s1, hin x1.dst]
+
+theorem addBranch_sim (f : Facts) (hf : f.Guarded) (hg : f.branchGuarded = true) (hpr : f.branchPropagates = true)
+    (im : Impl) (ord ord' : Ord) (hv : ord.Valid) (hv' : ord'.Valid)
+    (b b' : Builder) (hs : Sim b b') (hi : Inv im b) (hi' : Inv im b') (s : Key) (t : Ty) (ends : List Key) :
+    (addBranch f im ord b s t ends false).2.cls = (addBranch f im ord' b' s t ends false).2.cls ∧
+    (Sim (addBranch f im ord b s t ends false).1 (addBranch f im ord' b' s t ends false).1 ∨
+     BothErr (addBranch f im ord b s t ends false).1 (addBranch f im ord' b' s t ends false).1) := by
+  unfold addBranch
+  apply guarded_sim (R := Sim) f.branchG (by rw [hf.branch]; rfl) b b' hs _ _ _ hs
+  rw [addBranchBody_eq f hg hpr, addBranchBody_eq f hg hpr, branchStruct_sim hs]
+  rcases hst : branchStruct b s ends with _ | k
+  · simp only
+    have hex : b.hasNode s = true ∨ s = START := by
+      unfold branchStruct at hst
+      by_cases h1 : s = END
+      · simp [h1] at hst
+      · by_cases h2 : (!b.hasNode s && s != START) = true
+        · simp [h1, h2] at hst
+        · by_cases hh : b.hasNode s = true
+          · exact Or.inl hh
+          · right; simpa [hh] using h2
+    have hex' : b'.hasNode s = true ∨ s = START := by rw [hs.hasNode]; exact hex
+    have hst1 := hs.branchTyped s t
+    rw [hst1.tout s]
+    -- the start node is typed once the condition type has been accepted
+    have htyped : ∀ r, checkAssignable im ((branchTyped b s t).nodeOut s) (some t) = r → r ≠ .mustNot →
+        ∃ A, (branchTyped b s t).nodeOut s = some A := by
+      intro r hr hne
+      rcases ho : (branchTyped b s t).nodeOut s with _ | A
+      · rw [ho] at hr; simp [checkAssignable] at hr; exact absurd hr.symm hne
+      · exact ⟨A, rfl⟩
+    rcases hr : checkAssignable im ((branchTyped b s t).nodeOut s) (some t) with _ | _ | _
+    · exact Or.inl ⟨_, _, rfl, rfl⟩
+    all_goals
+      simp only
+      obtain ⟨A, hA⟩ := htyped _ hr (by simp)
+      obtain ⟨hw1, hq1, hp1, _, _, _⟩ := branchTyped_pre im b s t hi
+      obtain ⟨hw1', _, hp1', _, _, _⟩ := branchTyped_pre im b' s t hi'
+      -- the propagating run of the work list
+      rename_i flag0
+      generalize hflag : (_ == Asg.may) = flag
+      have hs2 : Sim ({ branchTyped b s t with preBranch := (branchTyped b s t).preBranch ++ [(s, flag)] } : Builder)
+          ({ branchTyped b' s t with preBranch := (branchTyped b' s t).preBranch ++ [(s, flag)] } : Builder) :=
+        ⟨hst1.fr, hst1.err, hst1.tin, hst1.tout, hst1.pend⟩
+      rcases update_sim im ord ord' hv hv' t _ _ hs2 hw1 hw1' hq1 hp1 hp1' with ⟨e1, e2⟩ | ⟨b3, b3', e1, e2, hs3⟩
+      · rw [e1, e2]; exact Or.inl ⟨_, _, rfl, rfl⟩
+      · rw [e1, e2]
+        simp only
+        obtain ⟨hc3, _⟩ := branch_mid_inv im ord hv b b3 s t flag hi hex e1
+        obtain ⟨hc3', _⟩ := branch_mid_inv im ord' hv' b' b3' s t flag hi' hex' e2
+        have hA3 : b3.nodeOut s = some A := by
+          have hw2 : WF ({ branchTyped b s t with preBranch := (branchTyped b s t).preBranch ++ [(s, flag)] } : Builder) := hw1
+          obtain ⟨hu, _, _⟩ := update_spec im ord hv t
+            ({ branchTyped b s t with preBranch := (branchTyped b s t).preBranch ++ [(s, flag)] } : Builder) b3 hw2 hq1 hp1 e1
+          exact hu.step.mono.tout s A hA
+        have hperm : (ord.ends b3 ends).Perm (ord'.ends b3' ends) :=
+          (hv.ends b3 ends).trans (hv'.ends b3' ends).symm
+        rcases branchEnds_perm_sim im ord ord' hv hv' s A _ _ hperm b3 b3' [] [] hs3 hc3 hc3' hA3 with
+          ⟨k, k', f1, f2⟩ | ⟨b4, b4', f1, f2, hs4⟩
+        · rw [f1, f2]; exact Or.inl ⟨_, _, rfl, rfl⟩
+        · rw [f1, f2]
+          refine Or.inr ⟨_, _, rfl, rfl, ?_⟩
+          refine ⟨?_, hs4.err, hs4.tin, hs4.tout, hs4.pend⟩
+          have hfr := hs4.fr
+          simp only [Builder.simFrame, Prod.mk.injEq] at hfr ⊢
+          obtain ⟨h1, h2, h3, h4, h5, h6, h7, h8, h9, h10, h11, h12, h13⟩ := hfr
+          simp only [h1, h2, h3, h4, h5, h6, h7, h8, h9, h10, h11, h12, h13, and_self]
+  · exact Or.inl ⟨k, k, rfl, rfl⟩
+
+
+/-! ### key preservation per call, and the run-level theorem -/
+
+theorem guarded_keysOK (g : Guards) (b : Builder) (body : Except ErrKind Builder) (hk : KeysOK b)
+    (hbody : ∀ c, body = .ok c → KeysOK c) : KeysOK (guarded g b body).1 := by
+  apply guarded_preserves (P := KeysOK) g b body hk (fun _ => ⟨hk.nodup, hk.nores⟩) hbody
+
+theorem addNode_keysOK (f : Facts) (b : Builder) (n : NodeSpec) (hk : KeysOK b) : KeysOK (addNode f b n).1 := by
+  unfold addNode
+  apply guarded_keysOK _ _ _ hk
+  intro c hc
+  rcases hck : addNodeCheck b n with _ | k
+  · simp only [hck, Except.ok.injEq] at hc
+    subst hc
+    have hkey : n.key ≠ START ∧ n.key ≠ END ∧ b.hasNode n.key = false := by
+      unfold addNodeCheck at hck
+      by_cases h1 : (n.key = END || n.key = START) = true
+      · simp [h1] at hck
+      · simp only [h1] at hck
+        by_cases h2 : b.hasNode n.key = true
+        · simp [h2] at hck
+        · simp only [Bool.or_eq_true, decide_eq_true_eq, not_or] at h1
+          exact ⟨h1.2, h1.1, by simpa using h2⟩
+    have hnk : (n.node).key = n.key := by unfold NodeSpec.node; split <;> rfl
+    refine ⟨?_, ?_⟩
+    · show ((b.nodes ++ [n.node]).map (·.key)).Nodup
+      rw [List.map_append, List.nodup_append]
+      refine ⟨hk.nodup, by simp, ?_⟩
+      intro a ha b0 hb0
+      simp only [List.map_cons, List.map_nil, List.mem_singleton] at hb0
+      rw [hb0, hnk]
+      intro e
+      obtain ⟨m, hm, hmk⟩ := List.mem_map.mp ha
+      have : findNode b.nodes m.key = some m := findNode_of_mem_nodup hk.nodup hm
+      have hh : b.hasNode n.key = true := by
+        unfold Builder.hasNode; rw [← e, ← hmk, this]; rfl
+      rw [hkey.2.2] at hh; simp at hh
+    · intro m hm
+      rcases List.mem_append.mp hm with hm | hm
+      · exact hk.nores m hm
+      · simp only [List.mem_singleton] at hm
+        subst hm; rw [hnk]; exact ⟨hkey.1, hkey.2.1⟩
+  · simp [hck] at hc
+
+theorem addEdge_keysOK (f : Facts) (im : Impl) (ord : Ord) (b : Builder) (s e : Key) (hk : KeysOK b) :
+    KeysOK (addEdge f im ord b s e false false none).1 := by
+  unfold addEdge
+  split
+  · exact hk
+  · split
+    · exact hk
+    · simp only [Bool.and_self, Bool.false_eq_true, ↓reduceIte]
+      apply guarded_keysOK _ _ _ hk
+      intro c hc
+      rw [addEdgeBody_eq] at hc
+      split at hc
+      · simp at hc
+      · split at hc
+        · simp at hc
+        · rename_i b2 hupd
+          simp only [Except.ok.injEq] at hc
+          subst hc
+          have := update_keys im ord _ _ hupd
+          exact hk.of_keys (b' := { b2 with dataEdges := b2.dataEdges ++ [(s, e)] }) this
+
+theorem addBranch_keysOK (f : Facts) (hg : f.branchGuarded = true) (hpr : f.branchPropagates = true)
+    (im : Impl) (ord : Ord) (b : Builder) (s : Key) (t : Ty) (ends : List Key) (hk : KeysOK b) :
+    KeysOK (addBranch f im ord b s t ends false).1 := by
+  unfold addBranch
+  apply guarded_keysOK _ _ _ hk
+  intro c hc
+  rw [addBranchBody_eq f hg hpr] at hc
+  have hk1 : keysOf (branchTyped b s t) = keysOf b := by
+    unfold branchTyped
+    split
+    · simp [keysOf, Builder.setTy, setTyIn_keys]
+    · rfl
+  split at hc
+  · simp at hc
+  · split at hc
+    · simp at hc
+    · split at hc
+      · simp at hc
+      · rename_i b3 hupd
+        split at hc
+        · simp at hc
+        · rename_i b4 hends
+          simp only [Except.ok.injEq] at hc
+          subst hc
+          have h3 := update_keys im ord _ _ hupd
+          have h4 := branchEnds_keys im ord s _ _ _ hends
+          refine hk.of_keys (b' := { b4 with branches := b4.branches ++ [_] }) ?_
+          show keysOf b4 = keysOf b
+          rw [h4, h3]; exact hk1
+
+theorem compile_keysOK (f : Facts) (ord : Ord) (b : Builder) (o : COpts) (hk : KeysOK b) :
+    KeysOK (compile f ord b o).1 := by
+  have hm : KeysOK (mutatePre f b) := by
+    unfold mutatePre; split
+    · exact ⟨hk.nodup, hk.nores⟩
+    · exact hk
+  unfold compile
+  split
+  · exact hk
+  · split
+    · exact hk
+    · split
+      · exact hm
+      · exact ⟨hm.nodup, hm.nores⟩
+
+/-- **Two runs of the same Graph-API call sequence under two iteration orders give the same
+    outcome class for every call** (ok / error / ErrGraphCompiled / panic): the orders in
+    which the type-inference work list, the end nodes of a branch and Kahn's counters are
+    visited are arbitrary, state-dependent and independent of each other. -/
+theorem run_order_free (f : Facts) (hf : f.Guarded) (hg : f.branchGuarded = true) (hpr : f.branchPropagates = true)
+    (hm : f.compileMutates = false)
+    (im : Impl) (ord ord' : Ord) (hv : ord.Valid) (hv' : ord'.Valid) :
+    ∀ (ops : List Op) (b b' : Builder), (∀ op ∈ ops, op.isGraphApi = true) →
+      ((Sim b b' ∧ Inv im b ∧ Inv im b' ∧ KeysOK b) ∨ BothErr b b') →
+      (run f im ord b ops).2.1.map Outcome.cls = (run f im ord' b' ops).2.1.map Outcome.cls := by
+  intro ops
+  induction ops with
+  | nil => intro b b' _ _; rfl
+  | cons op ops ih =>
+    intro b b' hops hrel
+    have hop : op.isGraphApi = true := hops op List.mem_cons_self
+    have hrest : ∀ x ∈ ops, x.isGraphApi = true := fun x hx => hops x (List.mem_cons_of_mem _ hx)
+    simp only [run, List.map_cons]
+    rcases hrel with ⟨hs, hi, hi', hko⟩ | ⟨he, he'⟩
+    · have key : (step f im ord b op).2.1.cls = (step f im ord' b' op).2.1.cls ∧
+          ((Sim (step f im ord b op).1 (step f im ord' b' op).1 ∧ Inv im (step f im ord b op).1 ∧
+              Inv im (step f im ord' b' op).1 ∧ KeysOK (step f im ord b op).1) ∨
+            BothErr (step f im ord b op).1 (step f im ord' b' op).1) := by
+        cases op with
+        | node n =>
+          obtain ⟨h1, h2⟩ := addNode_sim f hf b b' hs n
+          refine ⟨h1, ?_⟩
+          rcases h2 with h2 | h2
+          · exact Or.inl ⟨h2, addNode_inv f im b n hi, addNode_inv f im b' n hi', addNode_keysOK f b n hko⟩
+          · exact Or.inr h2
+        | edge s e nc nd m =>
+          simp only [Op.isGraphApi, Bool.and_eq_true, Bool.not_eq_true', Option.isNone_iff_eq_none] at hop
+          obtain ⟨⟨rfl, rfl⟩, rfl⟩ := hop
+          obtain ⟨h1, h2⟩ := addEdge_sim f hf im ord ord' hv hv' b b' hs hi hi' s e
+          refine ⟨h1, ?_⟩
+          rcases h2 with h2 | h2
+          · exact Or.inl ⟨h2, addEdge_inv f im ord hv b s e hi, addEdge_inv f im ord' hv' b' s e hi',
+              addEdge_keysOK f im ord b s e hko⟩
+          · exact Or.inr h2
+        | branch s t ends sk =>
+          simp only [Op.isGraphApi, Bool.not_eq_true'] at hop
+          subst hop
+          obtain ⟨h1, h2⟩ := addBranch_sim f hf hg hpr im ord ord' hv hv' b b' hs hi hi' s t ends
+          refine ⟨h1, ?_⟩
+          rcases h2 with h2 | h2
+          · exact Or.inl ⟨h2, addBranch_inv f hg hpr im ord hv b s t ends hi,
+              addBranch_inv f hg hpr im ord' hv' b' s t ends hi', addBranch_keysOK f hg hpr im ord b s t ends hko⟩
+          · exact Or.inr h2
+        | compile o =>
+          obtain ⟨h1, h2⟩ := compile_sim f hm ord ord'
+            (fun x hx => validateDAG_order_free x hx ord' ord hv'.kahn hv.kahn) b b' hs hko o
+          refine ⟨h1, ?_⟩
+          rcases h2 with h2 | h2
+          · exact Or.inl ⟨h2, compile_inv f im ord b o hi, compile_inv f im ord' b' o hi', compile_keysOK f ord b o hko⟩
+          · exact Or.inr h2
+      rw [key.1]
+      congr 1
+      exact ih _ _ hrest key.2
+    · -- both runs carry a stored error: every call returns it
+      obtain ⟨k, hk⟩ := Option.isSome_iff_exists.mp he
+      obtain ⟨k', hk'⟩ := Option.isSome_iff_exists.mp he'
+      rw [step_stored f hf im ord b k hk op, step_stored f hf im ord' b' k' hk' op]
+      simp only [Outcome.cls]
+      congr 1
+      exact ih b b' hrest (Or.inr ⟨he, he'⟩)
+
+
+theorem Sim.refl (b : Builder) (h : b.buildError = none) : Sim b b :=
+  ⟨rfl, ⟨h, h⟩, fun _ => rfl, fun _ => rfl, fun _ _ => Iff.rfl⟩
+
+theorem Inv_new (im : Impl) (cmp : Cmp) (inT outT : Ty) (st : Option Nat) : Inv im (Builder.new cmp inT outT st) := by
+  refine ⟨⟨?_, ?_, ?_, ?_⟩, rfl, ?_⟩
+  · intro n hn; simp [Builder.new] at hn
+  · intro s pe hpe; simp [Builder.new, getSlice] at hpe
+  · intro s pe hpe; simp [Builder.new, getSlice] at hpe
+  · intro s e hc
+    rcases hc with hc | hc
+    · rcases hc with hc | ⟨br, hbr, _⟩
+      · simp [Builder.new] at hc
+      · simp [Builder.new] at hbr
+    · simp at hc
+  · intro p hp; simp [Builder.new] at hp
+
+theorem KeysOK_new (cmp : Cmp) (inT outT : Ty) (st : Option Nat) : KeysOK (Builder.new cmp inT outT st) :=
+  ⟨by simp [Builder.new], by intro n hn; simp [Builder.new] at hn⟩
 
 end EinoV.Build
